@@ -92,6 +92,10 @@ impl SaslPlainMechanism {
         let _authzid = split.next()?;
         let authcid = split.next()?;
         let passwd = split.next()?;
+        // message = [authzid] NUL authcid NUL passwd: a further NUL makes the message malformed
+        if split.next().is_some() {
+            return Some(SaslCode::Auth);
+        }
         Some(self.validate_credential(authcid, passwd))
     }
 
